@@ -1,4 +1,5 @@
 import XModel.RefsTable
+import XModel.ManagerC11
 /-!
 # C12 — a pickled manager restores to an independent, behaviourally identical copy
 The pickle protocol is the model: reduce every node to (class, constructor arguments), rebuild by
@@ -20,5 +21,21 @@ example : unpickleN sn (pickleN [⟨"AddExpr", true, true, true⟩] (.node "AddE
     = .node "AddExpr" [("lhs", .ref 1), ("rhs", .lit)] := rfl
 example : unpickleN sn (pickleN [⟨"BuiltinRef", true, false, false⟩] (.node "BuiltinRef" [("arg", .ref 1), ("op", .lit), ("params", .lit)]))
     = .node "BuiltinRef" [] := rfl
+
+open Manager in
+/-- behavioural identity on the manager model: a restored manager holds the same task table over equal containers
+    (every node of every expression round-trips, `C12_reduce_rebuild`) and indices that satisfy the index invariant
+    for that table (whatever their insertion order after unpickling); then every assignment to a plain location in
+    C01's scope ends with the same container contents and definitions as on the original, under any legal schedules
+    of the two.  (Independence — the copy shares no state — is immediate in the model, whose states are values; on the
+    implementation it is the oracle `copy-affects-original`.) -/
+theorem C12_restored_same_behaviour (sched1 sched2 : Sched) (s : MState) (m : Index.Mgr Manager.Path Manager.Path)
+    (p : Manager.Path) (v : Store.Val) (hi : MInv s) (hi' : MInv { s with idx := m })
+    (hc : Consistent s) (hnodef : lookDef s.defs p = none) (sc : Scope s p)
+    (hvs1 : ValidSched (gOf s.idx) (findTaskids s.idx (chainR p)) (sched1 (findTaskids s.idx (chainR p))))
+    (hvs2 : ValidSched (gOf m) (findTaskids m (chainR p)) (sched2 (findTaskids m (chainR p))))
+    (s1 : MState) (hok : setValue sched1 s p v = (s1, none)) :
+    ∃ s2, setValue sched2 { s with idx := m } p v = (s2, none) ∧ s2.store = s1.store ∧ s2.defs = s1.defs :=
+  reindex_same_behaviour sched1 sched2 s m p v hi hi' hc hnodef sc hvs1 hvs2 s1 hok
 
 end Properties.C12
